@@ -4,6 +4,7 @@ import tempfile
 
 import numpy as np
 
+from .. import forms as vforms
 from .. import imgcfg
 
 ID = "C11"
@@ -110,7 +111,7 @@ def run_case(ctx, k, rng):
             iu = np.asarray(T(U[rng.permutation(len(U))]))
             W = float(np.sum(np.abs(wfun(U[:, 0], U[:, 1] - U[:, 0])))) + 1e-300
             ctx.check("image of a union == sum of images", np.max(np.abs(iu - (ia + ib))) <= 1e-12 * W, worst=float(np.max(np.abs(iu - (ia + ib)))), W=W)
-            ip = np.asarray(T(A[rng.permutation(len(A))]))
+            ip = np.asarray(T(vforms.relayout(rng, A[rng.permutation(len(A))])[0]))      # (a third of the layouts are plain copies)
             Wa = float(np.sum(np.abs(wfun(A[:, 0], A[:, 1] - A[:, 0])))) + 1e-300
             ctx.check("point order irrelevant", np.max(np.abs(ip - ia)) <= 1e-12 * Wa, worst=float(np.max(np.abs(ip - ia))))
             ctx.mark_nontrivial(desc, A, B)
@@ -162,6 +163,10 @@ def run_case(ctx, k, rng):
         elif scen in (9, 10, 11):   # alone == in a collection, in order
             m = int(rng.integers(1, 13))
             coll = [pts(int(rng.integers(0, 8))) for _ in range(m)]
+            if m >= 2 and rng.random() < 0.25:      # a resample with replacement: the same array object more than once
+                coll[int(rng.integers(1, m))] = coll[0]
+                if rng.random() < 0.5:
+                    coll[int(rng.integers(0, m))] = coll[int(rng.integers(0, m))]
             for _ in range(int(rng.integers(0, 3))):
                 coll[int(rng.integers(0, m))] = np.zeros((0, 2))
             ctx.set_payload({**desc, "collection": coll})
@@ -182,7 +187,7 @@ def run_case(ctx, k, rng):
             bp = imgcfg.gen_points(rng, m, pub)
             A = bd(bp)
             ctx.set_payload({**desc, "birth_persistence": bp})
-            i1 = np.asarray(T(A, skew=True)); i2 = np.asarray(T(bp, skew=False))
+            i1 = np.asarray(T(A, skew=vforms.npflag(rng, True))); i2 = np.asarray(T(vforms.relayout(rng, bp)[0], skew=vforms.npflag(rng, False)))
             W = float(np.sum(np.abs(wfun(bp[:, 0], bp[:, 1])))) + 1e-300
             # the re-rounded persistence moves a point by ~eps*scale: allow the kernel's Lipschitz response to that
             ctx.check("birth-death+skew == birth-persistence", np.max(np.abs(i1 - i2)) <= 1e-9 * W, worst=float(np.max(np.abs(i1 - i2))), W=W)
